@@ -117,6 +117,8 @@ pub fn gen_matrix(r: &mut Rng) -> Matrix4<f32> {
         2 => { for i in 0..3 { for j in 0..4 { m[(i, j)] = gen_tame(r); } } }
         _ => { for i in 0..4 { for j in 0..4 { m[(i, j)] = gen_tame(r); } } m[(3, 3)] = 1.0 + gen_tame(r).abs(); }
     }
+    // a uniform scale kept in the homogeneous coordinate: bottom row (0, 0, 0, w), w != 1
+    if r.chance(0.3) { for j in 0..3 { m[(3, j)] = 0.0; } m[(3, 3)] = *r.pick(&[2.0f32, 0.5, 3.0, -1.0, 4.0, 0.25, -2.0]); }
     m
 }
 
@@ -154,7 +156,46 @@ fn transform_oracle<F: Function<Trace = VmTrace> + MathFunction>(dag: &Dag, root
     match r { Ok((i, b)) => { bad.extend(b); (Some(i), bad) } Err(_) => (None, bad) }
 }
 
+/// values at which rounding, branch cuts and periodic functions change behaviour
+pub const EDGE_VALUES: &[f32] = &[
+    0.0, -0.0, 0.49999997, -0.49999997, 0.5, -0.5, 0.50000006, -0.50000006, 1.0, -1.0, 0.99999994, 1.0000001, -0.99999994, -1.0000001,
+    1.5, -1.5, 2.5, -2.5, 3.5, 8388608.0, -8388608.0, 8388609.0, -8388609.0, 8388611.0, 4194303.5, -4194303.5, 16777215.0, 16777216.0,
+    1.0e-45, -1.0e-45, f32::MIN_POSITIVE, std::f32::consts::FRAC_PI_2, -std::f32::consts::FRAC_PI_2, std::f32::consts::PI, -std::f32::consts::PI,
+    4.712389, -4.712389, std::f32::consts::TAU, -std::f32::consts::TAU, 100.0, -100.0, 1.0e30, -1.0e30, f32::MAX, f32::MIN, 2.0, -2.0, 0.25, 3.0, -3.0,
+];
+pub fn gen_edge_box(r: &mut Rng, nvars: usize) -> Vec<(f32, f32)> {
+    (0..nvars).map(|_| {
+        let a = *r.pick(EDGE_VALUES);
+        let b = match r.below(4) { 0 => a, 1 => *r.pick(EDGE_VALUES), 2 => a + 0.25, _ => a + (r.unit() * 3.0) as f32 };
+        let (l, u) = if a <= b { (a, b) } else { (b, a) };
+        if l.is_finite() && u.is_finite() && l <= u { (l, u) } else { (a, a) }
+    }).collect()
+}
+
+/// every opcode applied directly to the variables (and to a constant on either side): with `gen_edge_box`
+/// this sweeps each operation over rounding-sensitive bounds
+pub fn sweep_dag(r: &mut Rng) -> Dag {
+    use fidget_core::context::Context;
+    let mut ctx = Context::new();
+    let (x, y, z) = (ctx.x(), ctx.y(), ctx.z());
+    let mut roots = vec![];
+    for u in crate::wire::UOPS { if u == fidget_core::context::UnaryOpcode::Rand { continue; } roots.push(crate::dag::apply_un(&mut ctx, u, x)); }
+    let c = *r.pick(EDGE_VALUES);
+    let k = ctx.constant(c);
+    for b in crate::wire::BOPS {
+        if b == fidget_core::context::BinaryOpcode::Mix { continue; }
+        roots.push(crate::dag::apply_bin(&mut ctx, b, x, y));
+        roots.push(crate::dag::apply_bin(&mut ctx, b, y, x));
+        if c.is_finite() { roots.push(crate::dag::apply_bin(&mut ctx, b, x, k)); roots.push(crate::dag::apply_bin(&mut ctx, b, k, z)); }
+    }
+    // a second layer so that results feed further operations
+    let n = roots.len();
+    for _ in 0..6 { let a = roots[r.below(n)]; let b2 = roots[r.below(n)]; let op = *r.pick(&crate::wire::BOPS); if op != fidget_core::context::BinaryOpcode::Mix { roots.push(crate::dag::apply_bin(&mut ctx, op, a, b2)); } }
+    Dag { ctx, roots, vs: vec![] }
+}
+
 pub fn gen_box_c03(r: &mut Rng, nvars: usize) -> Vec<(f32, f32)> {
+    if r.chance(0.12) { return gen_edge_box(r, nvars); }
     let mode = r.below(5);
     (0..nvars).map(|_| {
         let a = match mode { 0 => gen_tame(r), 1 => gen_f32(r, 0.1), 4 => gen_tame(r) * *r.pick(&[1e18f32, 1e30, 3e38, 1e-30, 1.0]), _ => gen_tame(r) * *r.pick(&[1.0f32, 1.0, 10.0, 1e3, 1e-3]) };
@@ -217,16 +258,19 @@ pub fn run(seed: u64, count: usize, outdir: &str) -> std::io::Result<i32> {
             choice_heavy: false, no_hash: !r.chance(0.15), const_roots: false, choice_chain: 0 };
         let diffed = cfg.no_hash;
         let dag = gen_dag(&mut r, &cfg);
+        // every eighth case: the per-opcode sweep over rounding-sensitive bounds
+        let sweep = from_corpus.is_none() && ci % 8 == 3;
+        let (dag, diffed) = if sweep { (sweep_dag(&mut r), true) } else { (dag, diffed) };
         let (dag, fixed_box, fixed_samples, diffed) = match from_corpus {
             Some((d, b, s, df)) => (d, Some(b), Some(s), df),
             None => (dag, None, None, diffed),
         };
-        let roots = all_nodes(&dag, 48);
+        let roots = all_nodes(&dag, if sweep { 96 } else { 48 });
         let d2 = Dag { ctx: dag.ctx, roots: roots.clone(), vs: dag.vs };
         let dag = d2;
         for n in &roots { *ops_seen.entry(op_name(&dag, *n)).or_default() += 1; }
         let nvars = 3 + dag.vs.len();
-        let bx = fixed_box.unwrap_or_else(|| gen_box_c03(&mut r, nvars));
+        let bx = fixed_box.unwrap_or_else(|| if sweep { gen_edge_box(&mut r, nvars) } else { gen_box_c03(&mut r, nvars) });
         let samples = fixed_samples.unwrap_or_else(|| sample_box(&mut r, &bx, 8));
         // ---- implementation: interpreter interval results for the model diff
         let vm = GenericVmFunction::<255>::new(&dag.ctx, &dag.roots).unwrap();
